@@ -179,7 +179,8 @@ impl Campaign for StressCampaign {
         // length is the number of messages written so far): (thread, last acked seq, len)
         let markers: Arc<Mutex<Vec<(usize, i64, usize)>>> = Arc::new(Mutex::new(Vec::new()));
         let spy_len = if case.sink == StressSink::Spy { spy_rx.clone() } else { None };
-        // ---- producers
+        // ---- producers (their first operations are released together)
+        let start = Arc::new(std::sync::Barrier::new(case.threads as usize));
         let mut joins = Vec::new();
         for t in 0..case.threads as usize {
             let client = client.clone();
@@ -188,7 +189,10 @@ impl Campaign for StressCampaign {
             let pat = util::mix(case.yields, t as u64 + 1);
             let markers = markers.clone();
             let spy_len = spy_len.clone();
+            let start = start.clone();
             joins.push(std::thread::spawn(move || {
+                let _ = util::catch(|| ());
+                start.wait();
                 let mut acked: Vec<String> = Vec::new();
                 let mut errors: Vec<String> = Vec::new();
                 let mut panics: Vec<String> = Vec::new();
